@@ -146,7 +146,15 @@ func VerifHarness_CallTracerStream(flat uint64) {
 
 	verifAssert(len(inner.callstack) == 1, "C19: exactly one top-level frame remains")
 	root := &inner.callstack[0]
-	filtered := flat == 1 && target == precompile
+	filtered := flat == 1 && target == precompile && !ft(t).config.IncludePrecompiles
+	if filtered {
+		// calls to precompiles are left out wherever they were issued: by the frame's own code
+		// (before or after Aspect executions) or from inside an Aspect
+		verifAssert(len(root.Calls) == 0, "C19: a filtered precompile call issued by the frame is left out of the trace")
+		for i := range root.JoinPoints {
+			verifAssert(len(root.JoinPoints[i].Calls) == 0, "C19: a filtered precompile call issued by an Aspect is left out of the trace")
+		}
+	}
 	if !filtered {
 		verifAssert(verifCountFrames(root) == 1+enters, "C19: every entered frame is emitted exactly once")
 		verifAssert(len(root.Calls) == nKids, "C19: calls of the frame sit under the frame")
